@@ -96,6 +96,18 @@ def part_finite(k, r, case):
             j = d.to_json()
             if j != {'class': 'finite', 'values': list(vs)}:
                 msgs.append('to_json %r' % (j,))
+            # history: the caller keeps using (extending, reordering) the list it built the domain from
+            src = list(vs)
+            d2 = FiniteDomain(src)
+            src.append('later')
+            src.reverse()
+            if d2.size() != k or [d2.denumberize(i) for i in range(k)] != list(vs) or [d2.numberize(v) for v in vs] != list(range(k)) or d2.contains('later') or d2 != d or d2.to_json() != j:
+                msgs.append('domain changed when the list it was built from was modified afterwards: size %r, values %r' % (d2.size(), d2.to_json()))
+            out = d.to_json()['values']
+            if isinstance(out, list):
+                out.append('injected')
+                if d.size() != k or d.contains('injected'):
+                    msgs.append('modifying the list returned by to_json() changed the domain')
         except Exception as e:
             r.exc(e, 'finite-domain', case, key)
             continue
